@@ -5,6 +5,7 @@ import (
 	"context"
 	"fmt"
 	"io"
+	"net"
 	"strings"
 	"testing"
 	"time"
@@ -27,9 +28,11 @@ type RouteCase struct {
 	Client string      `json:"client"` // plain | spec:<base>
 	End    string      `json:"end"`    // client-close | server-close | idle | client-transport-close
 	RTTms  int         `json:"rtt_ms"`
-	Data   int         `json:"data"`    // bytes moved before the end: > 100 packets make the client rotate connection IDs
+	Data   int         `json:"data"` // bytes moved before the end: > 100 packets make the client rotate connection IDs
 	Faults []sim.Fault `json:"faults,omitempty"`
 	Seed   uint64      `json:"seed"`
+	Retry  bool        `json:"retry,omitempty"`   // the server validates addresses with a Retry first
+	CIDLen int         `json:"cid_len,omitempty"` // server connection ID length (0 = default 4)
 }
 
 var routeT *testing.T
@@ -38,6 +41,8 @@ func genRouteCase(t *rapid.T) RouteCase {
 	c := RouteCase{Client: rapid.SampledFrom([]string{"plain", "plain", "spec:chrome115", "spec:firefoxA"}).Draw(t, "client"),
 		End:   rapid.SampledFrom([]string{"client-close", "server-close", "idle", "client-transport-close"}).Draw(t, "end"),
 		RTTms: rapid.SampledFrom([]int{2, 20, 80}).Draw(t, "rtt"), Data: rapid.SampledFrom([]int{100, 20000, 400000}).Draw(t, "data"), Seed: rapid.Uint64().Draw(t, "seed")}
+	c.Retry = rapid.IntRange(0, 2).Draw(t, "retry") == 0
+	c.CIDLen = rapid.SampledFrom([]int{0, 0, 4, 8, 20}).Draw(t, "cidlen")
 	n := rapid.IntRange(0, 3).Draw(t, "nfaults")
 	for i := 0; i < n; i++ {
 		f := sim.Fault{Dir: rapid.SampledFrom([]string{"c2s", "s2c"}).Draw(t, "dir"), Nth: rapid.IntRange(0, 40).Draw(t, "nth"), Kind: rapid.SampledFrom([]string{"drop", "dup", "delay"}).Draw(t, "kind")}
@@ -68,7 +73,11 @@ func runRouteCase(c RouteCase, u *vf.Unit) *vf.Verdict {
 	defer w.Close()
 	w.Observe()
 	key := quic.StatelessResetKey{1, 2, 3}
-	st := &quic.Transport{Conn: w.ServerConn, StatelessResetKey: &key}
+	st := &quic.Transport{Conn: w.ServerConn, StatelessResetKey: &key, ConnectionIDLength: c.CIDLen}
+	if c.Retry {
+		st.VerifySourceAddress = func(net.Addr) bool { return true }
+		u.Class("server-sends-retry")
+	}
 	idle := 12 * time.Second
 	conf := func() *quic.Config {
 		return &quic.Config{DisablePathMTUDiscovery: true, MaxIdleTimeout: idle, HandshakeIdleTimeout: 4 * time.Second}
